@@ -1166,3 +1166,132 @@ Proof.
 Qed.
 
 End AdvFile.
+
+(* ------------------------------------------------------------------ FileControl.Validate of the new control *)
+
+Lemma validate_fctl_batches A nb c h d cr : nb <> 0 ->
+  Arith.validate_fctl A (Arith.mkfctl nb c h d cr) = Arith.validate_fctl A (Arith.mkfctl 1 c h d cr).
+Proof.
+  intros H. unfold Arith.validate_fctl. cbn [Arith.fc_batches Arith.fc_count Arith.fc_hash Arith.fc_debit Arith.fc_credit].
+  apply Z.eqb_neq in H. rewrite H. reflexivity.
+Qed.
+
+Section Hash.
+Variables (A : Arith.tables) (T : Offsets.otable) (TT : BuildIAT.ttable).
+Hypothesis HA : agree A T.
+Variables (hd : bytes -> hdrp) (sp : bytes -> stdp) (ip : bytes -> ipay) (ap : bytes -> apay).
+
+Local Notation toe := (to_off_entry sp).
+Local Notation fb := (f_batch A (hp_of hd) (fp_of sp)).
+
+(* Atoi(aba8(RDFIIdentification)): the entry's term of the entry hash *)
+Definition rd_e (e : entry) : Z := atoi (Arith.aba8 (sp_rdfi (sp (e_core e)))).
+
+Lemma rdfi_sum es : Offsets.sumf Offsets.e_rdfi (map toe es) = sumZ (map rd_e es).
+Proof.
+  induction es as [|e es IH]; cbn [map Offsets.sumf sumZ fold_right]; [reflexivity|].
+  unfold sumZ in IH. rewrite IH. reflexivity.
+Qed.
+
+Definition batch_rd (x : batch) : Z := sumZ (map rd_e (b_entries x)).
+
+Lemma batch_rd_sum l : zsum batch_rd l = sum_ids rd_e l.
+Proof. induction l as [|x l IH]; [reflexivity|]. rewrite sum_ids_cons. cbn [zsum]. now rewrite IH. Qed.
+
+Lemma add_all_created_hash l : Forall (created A T hd sp) l ->
+  exists ss, add_all A T TT hd sp ip ap l = (ss, [])
+    /\ existsb sb_is_adv ss = false
+    /\ zsum (fun s => Offsets.c_hash (sb_ctl s)) ss = zsum (fun x => Z.rem (batch_rd x) Offsets.P10) l.
+Proof.
+  induction 1 as [|x l (Hk & Hadv & b' & Hc & (_ & K2 & _) & He & _) _ IH].
+  - exists []. cbn. repeat split; reflexivity.
+  - destruct IH as (ss & Hss & Hna & S1). exists (SStd (std_hdr0 b') :: ss). cbn [add_all]. rewrite Hss, Hk, Hadv, Hc.
+    split; [reflexivity|]. split; [cbn [existsb sb_is_adv orb]; exact Hna|].
+    cbn [zsum sb_ctl std_hdr0 Offsets.b_ctl]. rewrite S1, K2, He. unfold Offsets.hash, batch_rd. now rewrite rdfi_sum.
+Qed.
+
+(* the new file control of a file of created standard batches: not an ADV file; batch count; the
+   entry hash is the sum of all routing numbers of the input cut to ten digits *)
+Lemma finish_created_hash inf all :
+  i_hdr_ok inf = true -> all <> [] -> Forall (created A T hd sp) (pre all) ->
+  BuildIAT.hash10 (BuildIAT.tt_create TT) = true ->
+  (forall p, In p (ids all) -> 0 <= rd_e (snd p)) ->
+  let f := snd (finish A T TT hd sp ip ap inf all) in
+  file_is_adv f = false /\ Offsets.fc_batches (af_ctl f) = BuildIAT.zlen all
+  /\ Offsets.fc_hash (af_ctl f) = (sum_ids rd_e all) mod Offsets.P10.
+Proof.
+  intros Hh Hne Hc H10 Hpos. cbv zeta. unfold finish. fold (pre all).
+  destruct (add_all_created A T TT hd sp ip ap (pre all) Hc) as (ss0 & Hss0 & Hlen & _).
+  destruct (add_all_created_hash (pre all) Hc) as (ss & Hss & Hna & S1).
+  rewrite Hss in Hss0. injection Hss0 as <-. rewrite Hss.
+  assert (Hlen' : length ss = length all).
+  { rewrite Hlen. unfold pre. rewrite map_length. apply Permutation_length, sort_by_perm. }
+  set (f0 := mkaf (i_hdr_ok inf) (mkfo false false false) ss [] zero_fctl zero_fctl).
+  assert (Hf : file_create_all TT f0 = (true, created_std TT f0)).
+  { unfold file_create_all, created_std, f0. cbn [af_opts fo_skip_all fo_allow_missing_hdr fo_allow_zero af_hdr_ok af_std af_iat negb andb].
+    rewrite Hh. cbn [negb andb]. destruct ss as [|s0 ss']; [destruct all; [congruence|discriminate]|]. cbn [andb].
+    unfold file_is_adv. cbn [af_std]. rewrite Hna. cbn [negb]. now rewrite file_control_renumber. }
+  rewrite Hf.
+  assert (Hsnd : forall c (g : afile), snd (if negb (file_ctl_ok A g) then (FErrValidate, g)
+      else if negb (i_count inf =? Offsets.fc_count (af_ctl g)) then (FErrCount, g)
+      else if negb (i_debit inf =? Offsets.fc_debit (af_ctl g)) then (FErrDebit, g)
+      else if negb (i_credit inf =? Offsets.fc_credit (af_ctl g)) then (c, g) else (FOk, g)) = g).
+  { intros c g. destruct (negb (file_ctl_ok A g)); [reflexivity|].
+    destruct (negb (i_count inf =? _)); [reflexivity|]. destruct (negb (i_debit inf =? _)); [reflexivity|].
+    destruct (negb (i_credit inf =? _)); reflexivity. }
+  rewrite Hsnd. unfold created_std, f0, af_with, file_is_adv.
+  cbn [af_std af_iat af_ctl file_control_all Offsets.fc_batches Offsets.fc_hash renumber_i zsum].
+  rewrite is_adv_renumber, (hash10_spec _ H10), cut10, !Z.add_0_r, S1.
+  split; [exact Hna|]. split; [unfold BuildIAT.zlen; now rewrite Hlen'|].
+  assert (Hb : forall x, In x (pre all) -> 0 <= batch_rd x).
+  { intros x Hx. unfold batch_rd. apply sumZ_nonneg, Forall_forall. intros z Hz. apply in_map_iff in Hz as (e & <- & He).
+    apply (Hpos (b_sig x, e)). eapply Permutation_in; [apply pre_ids|]. now apply in_ids. }
+  rewrite rem_mod_nonneg by (apply zsum_rem_nonneg; exact Hb).
+  rewrite (mod_zsum_rem batch_rd (pre all) Hb), batch_rd_sum.
+  now rewrite (sum_ids_perm _ _ _ (pre_ids all)).
+Qed.
+
+(* C12_succeeds with the last error return closed: if the ORIGINAL file control (count, debit and
+   credit totals, entry hash = the routing numbers cut to ten digits) passes FileControl.Validate,
+   so does the new one — FlattenBatches returns no error *)
+Theorem flatten_succeeds_ok inf inp r :
+  std_file inp -> inp <> [] -> i_hdr_ok inf = true ->
+  kinds_consistent inp -> Forall traces_nodup inp ->
+  Forall (fun b => Arith.validate_batch A (fb b) = Arith.ROk) inp ->
+  Forall (hdr_pair hd) (ids inp) ->
+  i_count inf = sum_ids cnt_e inp -> i_debit inf = sum_ids (db_e T sp) inp -> i_credit inf = sum_ids (cr_e T sp) inp ->
+  cat_rule inp ->
+  Arith.t_file_limit A <= Arith.t_batch_limit A ->
+  BuildIAT.hash10 (BuildIAT.tt_create TT) = true ->
+  (forall p, In p (ids inp) -> 0 <= rd_e (snd p)) ->
+  Arith.validate_fctl A (Arith.mkfctl 1 (i_count inf) ((sum_ids rd_e inp) mod Offsets.P10) (i_debit inf) (i_credit inf)) = Arith.ROk ->
+  flatten_full_spec A T TT hd sp ip ap inf inp r ->
+  fst r = FOk.
+Proof.
+  intros Hstd Hne Hh Hk Hnd Hv Hhp E1 E2 E3 Hcat L3 H10 Hpos Hctl Hspec.
+  assert (L12 : i_debit inf <= Arith.t_file_limit A /\ i_credit inf <= Arith.t_file_limit A).
+  { pose proof Hctl as Hc0. unfold Arith.validate_fctl in Hc0.
+    cbn [Arith.fc_batches Arith.fc_count Arith.fc_hash Arith.fc_debit Arith.fc_credit] in Hc0.
+    apply ArithFacts.andr_ok in Hc0 as [_ Hc0]. apply ArithFacts.andr_ok in Hc0 as [Hdb0 Hcr0].
+    apply ArithFacts.chk_true in Hcr0; [|discriminate]. apply ArithFacts.chk_true in Hdb0; [|discriminate].
+    split; now apply Z.leb_le. }
+  destruct L12 as (L1 & L2).
+  pose proof (flatten_succeeds A T TT HA hd sp ip ap inf inp r Hstd Hne Hh Hk Hnd Hv Hhp E1 E2 E3 Hcat L1 L2 L3 Hspec) as (R1 & _ & R3 & R4 & R5).
+  destruct R1 as [R1|(R1 & Rv)]; [exact R1|exfalso].
+  destruct Hspec as (order & all & Hadm & Hall & ->).
+  destruct (consolidated_created A T HA hd sp inf inp order all Hstd Hk Hnd Hv Hhp E2 E3 Hcat L1 L2 L3 Hadm Hall) as (Hcv & Pall).
+  assert (Hcr : Forall (created A T hd sp) (pre all)) by (eapply Forall_impl; [|exact Hcv]; intros x [H _]; exact H).
+  assert (Hall_ne : all <> []).
+  { intros ->. unfold std_file in Hstd. destruct inp as [|b0 inp']; [congruence|]. inversion Hstd as [|? ? (_ & Hb0 & _) _]; subst.
+    destruct (b_entries b0) as [|e0 q] eqn:E; [congruence|].
+    assert (Hin : In (b_sig b0, e0) (ids (b0 :: inp'))) by (apply in_ids; [now left|rewrite E; now left]).
+    eapply Permutation_in in Hin; [|apply Permutation_sym, Pall]. destruct Hin. }
+  assert (Hpos' : forall p, In p (ids all) -> 0 <= rd_e (snd p)) by (intros p Hp; apply Hpos; eapply Permutation_in; [exact Pall|exact Hp]).
+  destruct (finish_created_hash inf all Hh Hall_ne Hcr H10 Hpos') as (Q1 & Q2 & Q3).
+  unfold file_ctl_ok in Rv. rewrite Q1 in Rv. unfold a_fctl in Rv. rewrite Q2, Q3, R3, R4, R5 in Rv.
+  rewrite validate_fctl_batches in Rv.
+  - rewrite (sum_ids_perm _ _ _ Pall), Hctl in Rv. discriminate.
+  - unfold BuildIAT.zlen. destruct all; [congruence|cbn [length]; lia].
+Qed.
+
+End Hash.
